@@ -37,7 +37,7 @@ func (p recvProp) Input(in interface{}) Sx { return recvInputSx(in.(recvIn)) }
 
 func (p recvProp) Key(inp interface{}) (string, bool) {
 	in := inp.(recvIn)
-	k := fmt.Sprintf("c%v sm%v w%d cut%d ws%v lg%v%v:", in.Component, in.SM, in.WFail, in.Cut, in.WS, in.Logged, in.ErrWithData)
+	k := fmt.Sprintf("c%v sm%v w%d cut%d ws%v%v%v lg%v%v:", in.Component, in.SM, in.WFail, in.Cut, in.WS, in.Frag, in.PeerClose, in.Logged, in.ErrWithData)
 	if in.WS {
 		hist("transport:websocket")
 	} else {
@@ -284,6 +284,10 @@ func genC05(r *rand.Rand, tier string) []interface{} {
 	nws := n / 8
 	for i := 0; i < nws; i++ {
 		in := recvIn{Cut: -1, WS: true, SM: r.Intn(2) == 0, Inb: []int{0, 5}[r.Intn(2)]}
+		// one in three: every element arrives as a fragmented websocket message; one in three: the server closes the
+		// websocket itself at the end (the read path, not a keepalive, has to report it)
+		in.Frag = i%3 == 1
+		in.PeerClose = i%3 == 2
 		in.Items = wsify(genItems(r, 1+r.Intn(25), r.Intn(4) == 0, false))
 		out = append(out, in)
 	}
